@@ -273,6 +273,33 @@ class History(object):
             self.ref.prefixes.pop(p)
         return {"new_pages": 0, "weid": weid}
 
+    def op_delbad(self, n):
+        """delete_webentity with the webentity's prefixes followed by a prefix it does not own: refused, nothing changes"""
+        E = self.E
+        we = self.pick_we(n + ".we")
+        if we is None:
+            raise_infeasible(E)
+        weid, prefixes = we
+        p = self.prefix_operand(n + ".p")
+        if self.ref.prefixes.get(p.lru) == weid:
+            raise_infeasible(E)
+        ok, res = E.call("delete_webentity", self.t.delete_webentity, weid, list(prefixes) + [p.lru])
+        E.check(not ok, "delete_webentity:bad-accepted", "a deletion naming a prefix the webentity does not own was accepted")
+        return {"new_pages": 0}
+
+    def op_deldup(self, n):
+        """delete_webentity naming one of its prefixes twice: a valid deletion"""
+        E = self.E
+        we = self.pick_we(n + ".we")
+        if we is None:
+            raise_infeasible(E)
+        weid, prefixes = we
+        ok, res = E.call("delete_webentity", self.t.delete_webentity, weid, [prefixes[0]] + list(prefixes))
+        E.check(ok, "delete_webentity:refused", "deleting a webentity with its own prefixes (one named twice) was refused")
+        for p in prefixes:
+            self.ref.prefixes.pop(p)
+        return {"new_pages": 0, "weid": weid}
+
     def op_addprefix(self, n):
         E = self.E
         we = self.pick_we(n + ".we")
